@@ -49,7 +49,7 @@ func ReceiveNoHash(ctx context.Context, dst BlobReceiver, br blob.Ref, src io.Re
 }
 
 func receive(ctx context.Context, dst BlobReceiver, br blob.Ref, src io.Reader, checkHash bool) (sb blob.SizedRef, err error) {
-	src = io.LimitReader(src, MaxBlobSize)
+	src = &maxSizeReader{src: src, remain: MaxBlobSize}
 	if checkHash {
 		h := br.Hash()
 		if h == nil {
@@ -66,6 +66,40 @@ func receive(ctx context.Context, dst BlobReceiver, br blob.Ref, src io.Reader, 
 	}
 	err = GetHub(dst).NotifyBlobReceived(sb)
 	return
+}
+
+// errBlobTooBig is the error returned when reading a blob that is
+// larger than MaxBlobSize.
+var errBlobTooBig = fmt.Errorf("blob over the limit of %d bytes", MaxBlobSize)
+
+// maxSizeReader is an io.Reader that reads at most remain bytes from
+// src, like io.LimitReader, but fails with errBlobTooBig instead of
+// reporting io.EOF if src has more bytes than that. Otherwise a blob
+// whose first MaxBlobSize bytes match its blobref would be silently
+// truncated and accepted.
+type maxSizeReader struct {
+	src    io.Reader
+	remain int64
+}
+
+func (m *maxSizeReader) Read(p []byte) (n int, err error) {
+	if len(p) == 0 {
+		return 0, nil
+	}
+	if m.remain <= 0 {
+		var probe [1]byte
+		n, err = m.src.Read(probe[:])
+		if n > 0 {
+			return 0, errBlobTooBig
+		}
+		return 0, err
+	}
+	if int64(len(p)) > m.remain {
+		p = p[:m.remain]
+	}
+	n, err = m.src.Read(p)
+	m.remain -= int64(n)
+	return n, err
 }
 
 // checkHashReader is an io.Reader that wraps the src Reader but turns
